@@ -161,8 +161,49 @@ func (g *Gen) randValueType() *Type {
 	}
 }
 
+// genPtrLet declares `let p = &<place>;` for a function-space variable or one of its members / elements; later
+// statements read and write through *p (roots() offers every visible pointer as a dereference path).
+func (g *Gen) genPtrLet() Stmt {
+	var cands []path
+	for _, v := range g.visible() {
+		if v.Kind == VLocal && v.Alias == nil && v.Ty.Constructible() {
+			cands = append(cands, path{e: &Ref{V: v}, t: v.Ty, writable: true, root: v})
+		}
+	}
+	if len(cands) == 0 {
+		return nil
+	}
+	for tries := 0; tries < 4; tries++ {
+		q := cands[g.R.Intn(len(cands))]
+		if g.R.Bool() && !q.t.IsScalar() {
+			q2, ok := g.subPath(q, func(t *Type) bool { return t.Constructible() }, 0)
+			if !ok {
+				continue
+			}
+			q = q2
+		}
+		if !q.t.Constructible() || containsVecIndex(q.e) || (!g.on("ptr.mat-column") && containsMatIndex(q.e)) || (!g.on("ptr.dynamic-element") && containsDynIndex(q.e)) {
+			continue
+		}
+		if fe, isField := q.e.(*Field); isField && q.t.Kind == KVec && q.t.N == 3 && !g.on("ptr.struct-vec3-member") {
+			_ = fe
+			continue
+		}
+		v := &Var{Name: g.name("pl"), Kind: VLet, Ty: g.U.Ptr("function", q.t, "")}
+		g.declare(v)
+		g.feat("decl.let.ptr." + kindName(q.t))
+		return &VarDecl{V: v, Init: &AddrOf{X: q.e, Ty: v.Ty}}
+	}
+	return nil
+}
+
 func (g *Gen) genLocalDecl() Stmt {
 	r := g.R
+	if g.on("ptr.let") && r.Chance(1, 8) {
+		if s := g.genPtrLet(); s != nil {
+			return s
+		}
+	}
 	t := g.randValueType()
 	switch r.Pick([]int{5, 4, 1}) {
 	case 0:
